@@ -40,8 +40,8 @@ func (w *world) compositeFields(d *gq.SchemaDesc, td *gq.TypeDesc) []gq.FieldDes
 	out := []gq.FieldDesc{}
 	for _, f := range td.Fields {
 		te, err := gq.ParseType(f.Type)
-		if err != nil || hasRequiredArg(f) {
-			continue
+		if err != nil || hasRequiredArg(f) || strings.HasPrefix(f.Name, "__") {
+			continue // a user field named like a meta field cannot be selected: the meta field wins
 		}
 		ft := d.Type(te.NamedName())
 		if ft == nil {
